@@ -1,6 +1,7 @@
 """C19 — room and user views equal the fold of what the server announced.
 
-L1  theories/C19/Props.v: the hand model of the ~26 room/user handlers (Model.v) answers every
+L1  theories/C19/Props.v: the handlers' clauses, REGENERATED from room/manager.py + user/manager.py by
+    translate/tr_rooms.py (22 straight-line handlers; the 4 with loops are hand-modelled and shape-pinned), answer every
     question of the independent per-question spec (Spec.v) identically, for all notification lists
     (full statement; finding F24 repaired, its witness is still replayed).
 L2  correspondence: notification sequences (<= 12, 3 rooms x 3 users incl. the logged-in user) are
@@ -496,6 +497,7 @@ def monitor(blocked, msgs, obs):
 
 HEADER = r'''From Coq Require Import ZArith List Bool Arith.
 From Slsk Require Import C19.Spec C19.Model.
+From SlskGen Require Import RoomGen.
 Import ListNotations.
 Open Scope nat_scope.
 Definition zz (a b c d : Z) : stats := (a, b, c, d).
@@ -662,7 +664,7 @@ def run(run: Run):
                     'status values are drawn from the valid UserStatus range 0..2 (UserStatus(n) raises for others)']
     run.assumptions += ['message fields name only the 3 rooms / 3 users of the scope (the theorems are for arbitrary names)',
                         'JoinRoom replies carry owner and operators together or not at all']
-    run.prove([])
+    proved = run.prove(['tr_rooms'])
 
     cases = []
     witnessed_f24 = False
@@ -716,6 +718,16 @@ def run(run: Run):
     for i in range(n):
         explore(rng.choice(BLOCKMAPS), gen_seq(rng), 'random')
 
+    # directed search: a proof / the translator broke and the random sequences did not produce a concrete failing history:
+    # small-scope enumeration (every ordered pair of a compact message alphabet) on the implementation under the monitor
+    if not proved and not run.findings:
+        import time as _t
+        t_end = _t.time() + (90 if run.tier == 'quick' else 300)
+        for blocked, msgs in small_scope():
+            explore(blocked, msgs, 'directed')
+            if run.findings or _t.time() > t_end:
+                break
+
     # L2
     try:
         bad = model_check(run, cases)
@@ -727,6 +739,29 @@ def run(run: Run):
         run.cov['steps_compared'] = sum(len(c[1]) for c in cases)
     except BrokenTie as e:
         run.add_broken(e.obligation, e.detail)
+
+
+def small_scope():
+    """every ordered pair over a compact alphabet: one or two fixed instances of every message kind on room r0 / users me, u1"""
+    st = [5, 1, 7, 2]
+    alpha = [
+        ['RoomList', ['r0'], [], [], []], ['RoomList', [], ['r0'], ['r0'], ['r0']], ['RoomList', [], [], [], []],
+        ['JoinRoom', 'r0', [['u1', 2, st]], None, []], ['JoinRoom', 'r0', [['me', 1, st]], 'u1', ['me']], ['LeaveRoom', 'r0'],
+        ['UserJoined', 'r0', 'u1', 1, st], ['UserLeft', 'r0', 'u1'], ['MemberGrant', 'r0', 'u1'], ['MemberRevoke', 'r0', 'u1'],
+        ['MembershipGranted', 'r0'], ['MembershipRevoked', 'r0'], ['Members', 'r0', ['me', 'u1']], ['Members', 'r0', []],
+        ['Operators', 'r0', ['me', 'u1']], ['Operators', 'r0', []], ['OpGrant', 'r0', 'u1'], ['OpRevoke', 'r0', 'u1'],
+        ['OpGranted', 'r0'], ['OpRevoked', 'r0'], ['Tickers', 'r0', [['u1', 't0'], ['me', 't1']]], ['Tickers', 'r0', []],
+        ['TickerAdd', 'r0', 'u1', 't2'], ['TickerRem', 'r0', 'u1'], ['RoomChat', 'r0', 'u1', 't0'], ['PublicChat', 'r0', 'u1', 't0'],
+        ['PrivateChat', 'u1', 't0'], ['UserStatus', 'u1', 2, True], ['UserStatus', 'u1', 2, False], ['UserStatus', 'u1', 1, False],
+        ['UserStats', 'u1', st], ['AddUser', 'u1', True, 1, st], ['AddUser', 'u1', False, 0, None], ['PrivUsers', ['u1']], ['PrivUsers', []],
+        ['AddPrivUser', 'u1'],
+    ]
+    for blocked in ({}, {'u1': 'IGNORE'}):
+        for a in alpha:
+            yield blocked, [a]
+    for a in alpha:
+        for b in alpha:
+            yield {}, [a, b]
 
 
 def _differs(blocked, msgs):
